@@ -119,6 +119,35 @@ def run_item(item):
     for _ in range(2):
         a, b = (nodes[i] for i in rng.choice(len(nodes), 2, replace=False))
         supply([a, b], "pair")
+    # data as a dict of Series that carry arbitrary index labels; the supplied column is taken from the result
+    # frame (fresh RangeIndex) - columns are positional, labels must not matter
+    import pandas as pd
+
+    labels = rng.permutation(len(df))
+    base_dict = {c: pd.Series(df[c].to_numpy(), index=labels, name=c) for c in df.columns}
+    for n_ in [mine[i] for i in rng.choice(len(mine), min(3, len(mine)), replace=False)] if mine else []:
+        data = dict(base_dict)
+        data[n_] = pd.Series(S0[n_].to_numpy(), name=n_)
+        targets = [t for t in nodes if t != n_][:: max(1, len(nodes) // 40)]
+        try:
+            with warnings.catch_warnings():
+                warnings.simplefilter("ignore")
+                out = env.compute_taxes_and_transfers(data, params, functions, targets=targets)
+        except Exception as e:  # noqa: BLE001
+            viol(f"dict_input:exception", f"dict of Series (shuffled index labels) with {n_} supplied raises {type(e).__name__}: {str(e)[:160]}")
+            continue
+        res["runs"] += 1
+        res["variants"]["dict_misaligned_index"] = res["variants"].get("dict_misaligned_index", 0) + 1
+        res["supplied"].append(("dict_misaligned_index", n_))
+        if len(out) != len(df):
+            viol("dict_input:rows", f"dict of Series input: {len(out)} result rows for {len(df)} input rows")
+            continue
+        for t in targets:
+            res["columns_compared"] += 1
+            if not _same(S0[t].to_numpy(), out[t].to_numpy()):
+                viol(f"dict_input:{n_}->value", f"data passed as dict of Series with shuffled index labels and {n_} supplied from the result frame: "
+                                               f"{t} differs from the computed run (columns matched by label instead of position)")
+                break
     res["sample"] = dict(date=item["date"], population=popgen.describe(df), supplied=res["supplied"][:8])
     return res
 
